@@ -2,24 +2,29 @@
 C01  Replicas converge: the same committed log gives the same database on every node,
 whichever apply path it took and whenever it ran.
 
-Two layers.
-(1) For ANY SQLite semantics `M : Sem D S` whose rewriter obeys the C14 law (a rewritten
-    statement does not consult the environment — `Sem.rewritten_indep`, a hypothesis;
-    C14/agent a5 models and proves it for the real rewriter) and ANY requests that entered
-    through an endpoint that rewrites: every apply path — live, restart replay, install of
-    a snapshot taken at any index followed by the log suffix, recovery replay — at any
-    apply times and with any random sources, ends in the same database (`converge`).
-(2) The store's paths really are such folds: `paths_are_folds` over the node model
-    StoreSM (C22/C03/C33 give the restart and recovery legs).
-Every write endpoint rewrites (the SQL-text branch of /db/load since fix commit 706f645), so
-the statement over ALL write endpoints holds (`converge_all_endpoints`, `C01_full_holds`);
-`unrewritten_statement_witness` shows what the repaired defect did: a statement that
-reaches the log unrewritten makes a live node and a replaying node differ.
-Tied to the code by the end-to-end differential run in package http (real HTTP service →
-real store → live / replay / snapshot-install on a joining node / recovery, grammar-
-generated SQL with RANDOM(), RANDOMBLOB(), date/time at 'now') and by regenerated facts.
+Layer 1 (statements). `Sem D S` is SQLite seen from the log: `exec` may read the applying
+node's clock and random source; `rewrite` is what the leader does before logging; `Covered`
+are the statements in the property's scope. `converge` / `C01_full_holds`: for EVERY such
+semantics, every sequence of requests with covered statements through any write endpoint,
+and every choice of environments, the four apply paths — live, restart replay, snapshot
+install at any index + suffix, recovery (snapshot at any index folded by RecoverNode + empty
+suffix) — end in the same database.
+   The law `rewritten_indep` is NOT an assumption for the real rewriter: `sqlSem` builds the
+semantics from agent a5's C14 model (statement trees `Rewrite.Node`, `Rewrite.rewrite` =
+`Rewriter.Do`, C14's denotational `eval` extended with a random source) and derives the law
+from `C14.no_nondet_left` (the rewriter's output is clean) + `evalE_indep` / `rewrite_noRand`
+(Lemmas/ConvergeSql.lean). Unparsable texts are `SqlStmt.raw`: passed through unrewritten, not
+covered, and `uncovered_statement_witness` shows such a statement can diverge.
+Layer 2 (store). The node model's paths with the environment threaded through every apply
+(`openNodeE`, `recoverNodeE`, `runWritesE`; Lemmas/StoreSME.lean) equal the environment-free
+ones whenever the logged commands are environment independent (`store_paths_converge`), and
+differ otherwise (`store_layer_can_diverge_witness`).
+Tied to the code by the end-to-end differential run (package http: real HTTP service → real
+store → live / replay / install on a joining node / recovery) and the regenerated endpoint facts.
 -/
-import RqModel.Model.Converge
+import RqModel.Lemmas.ConvergeSql
+import RqModel.Lemmas.StoreSME
+import RqModel.Props.C14
 import RqModel.Props.C03
 namespace C01
 open RqModel.Converge RqModel.StoreSM
@@ -47,15 +52,19 @@ theorem applyFrom_append (M : Sem D S) (e : Nat → Env) (i : Nat) (d : D) (a b 
     simp only [List.cons_append, applyFrom, List.length_cons]
     rw [ih]; congr 1; omega
 
-/-- everything an endpoint that rewrites puts into the log is environment independent -/
-theorem logged_indep (M : Sem D S) (ep : Endpoint) (hr : rewrites ep = true) (le : Env) (ss : List S) :
+/-- the endpoint table is computed from the handlers' call lists: every write endpoint calls the
+rewriter before it forwards -/
+theorem all_endpoints_rewrite (ep : Endpoint) : rewrites ep = true := by cases ep <;> decide
+
+/-- everything an endpoint puts into the log for covered statements is environment independent -/
+theorem logged_indep (M : Sem D S) (ep : Endpoint) (le : Env) (ss : List S) (hc : ∀ s ∈ ss, M.Covered s) :
     ∀ s ∈ logged M ep le ss, Indep M s := by
   intro s hs
   unfold logged at hs
-  rw [if_pos hr] at hs
-  obtain ⟨t, _, rfl⟩ := List.mem_map.1 hs
+  rw [if_pos (all_endpoints_rewrite ep)] at hs
+  obtain ⟨t, ht, rfl⟩ := List.mem_map.1 hs
   intro e1 e2 d
-  exact M.rewritten_indep le t e1 e2 d
+  exact M.rewritten_indep le t (hc t ht) e1 e2 d
 
 /-- a request as it reaches a leader: endpoint, the leader's environment at that moment,
 the statements -/
@@ -67,108 +76,241 @@ structure Req (S : Type) where
 /-- the committed log produced by a sequence of requests -/
 def logOf (M : Sem D S) (rs : List (Req S)) : List S := rs.flatMap fun r => logged M r.ep r.le r.ss
 
-/-- **converge.** For every semantics obeying the rewrite law, every sequence of requests
-that entered through rewriting endpoints, every snapshot index `k`, every pair of
-environment streams: a node that applied the whole log live, a node that replayed it
-later, and a node that installed a snapshot of the first `k` entries (taken on yet another
-node) and applied the suffix, all hold the same database. -/
-theorem converge (M : Sem D S) (rs : List (Req S)) (hr : ∀ r ∈ rs, rewrites r.ep = true)
-    (d0 : D) (k : Nat) (live replay snapshotter installer : Nat → Env) :
-    let log := logOf M rs
-    applyFrom M replay 0 d0 log = applyFrom M live 0 d0 log ∧
-    applyFrom M installer k (applyFrom M snapshotter 0 d0 (log.take k)) (log.drop k) = applyFrom M live 0 d0 log := by
-  intro log
-  have hi : ∀ s ∈ log, Indep M s := by
-    intro s hs
-    obtain ⟨r, hrm, hsr⟩ := List.mem_flatMap.1 hs
-    exact logged_indep M r.ep (hr r hrm) r.le r.ss s hsr
-  refine ⟨applyFrom_indep M log hi _ _ 0 0 d0, ?_⟩
-  have hsplit : log = log.take k ++ log.drop k := (List.take_append_drop k log).symm
-  have hit : ∀ s ∈ log.take k, Indep M s := fun s hs => hi s (List.mem_of_mem_take hs)
-  have hid : ∀ s ∈ log.drop k, Indep M s := fun s hs => hi s (List.mem_of_mem_drop hs)
-  conv => rhs; rw [hsplit, applyFrom_append]
-  rw [applyFrom_indep M (log.take k) hit snapshotter live 0 0 d0]
-  exact applyFrom_indep M (log.drop k) hid _ _ _ _ _
+def CoveredReqs (M : Sem D S) (rs : List (Req S)) : Prop := ∀ r ∈ rs, ∀ s ∈ r.ss, M.Covered s
 
-theorem all_endpoints_rewrite (ep : Endpoint) : rewrites ep = true := by cases ep <;> rfl
-
-/-- **converge_all_endpoints**: no side condition on the endpoint is left — every write
-endpoint runs the rewriter, so every sequence of requests converges on every path -/
-theorem converge_all_endpoints (M : Sem D S) (rs : List (Req S))
-    (d0 : D) (k : Nat) (live replay snapshotter installer : Nat → Env) :
-    let log := logOf M rs
-    applyFrom M replay 0 d0 log = applyFrom M live 0 d0 log ∧
-    applyFrom M installer k (applyFrom M snapshotter 0 d0 (log.take k)) (log.drop k) = applyFrom M live 0 d0 log :=
-  converge M rs (fun r _ => all_endpoints_rewrite r.ep) d0 k live replay snapshotter installer
-
-/-- the property over ALL write endpoints, for the executable instance -/
-def C01_full : Prop :=
-  ∀ (rs : List (Req XStmt)) (d0 : Db) (live replay : Nat → Env),
-    applyFrom miniSem replay 0 d0 (logOf miniSem rs) = applyFrom miniSem live 0 d0 (logOf miniSem rs)
-
-theorem C01_full_holds : C01_full := fun rs d0 live replay =>
-  (converge_all_endpoints miniSem rs d0 0 live replay live live).1
-
-/-- **converge_partial** (kept: it is the form that does not depend on the endpoint table):
-requests may enter through an endpoint that does NOT rewrite as long as their statements
-do not consult the environment by themselves -/
-theorem converge_partial (M : Sem D S) (rw : Endpoint → Bool) (rs : List (Req S))
-    (hx : ∀ r ∈ rs, rw r.ep = false → ∀ s ∈ r.ss, Indep M s)
-    (d0 : D) (live replay : Nat → Env) :
-    let log := rs.flatMap fun r => if rw r.ep then r.ss.map (M.rewrite r.le) else r.ss
-    applyFrom M replay 0 d0 log = applyFrom M live 0 d0 log := by
-  intro log
-  apply applyFrom_indep
+theorem log_indep (M : Sem D S) (rs : List (Req S)) (hc : CoveredReqs M rs) : ∀ s ∈ logOf M rs, Indep M s := by
   intro s hs
   obtain ⟨r, hrm, hsr⟩ := List.mem_flatMap.1 hs
-  by_cases hr : rw r.ep = true
-  · rw [if_pos hr] at hsr
-    obtain ⟨t, _, rfl⟩ := List.mem_map.1 hsr
-    intro e1 e2 d
-    exact M.rewritten_indep r.le t e1 e2 d
-  · rw [if_neg hr] at hsr
-    exact hx r hrm (by simpa using hr) s hsr
+  exact logged_indep M r.ep r.le r.ss (hc r hrm) s hsr
 
-/-- **unrewritten_statement_witness**: the rewriting is necessary. `INSERT … VALUES(random())`
-that reaches the log as written (what /db/load did with SQL text before the repair) gives a
-live node and a node replaying later different databases; through a rewriting endpoint the
-same request converges. -/
-theorem unrewritten_statement_witness :
-    applyFrom miniSem (fun _ => ⟨100, 7⟩) 0 [] [XStmt.put 1 .random] = [(1, 7)] ∧
-    applyFrom miniSem (fun _ => ⟨160, 9⟩) 0 [] [XStmt.put 1 .random] = [(1, 9)] ∧
-    applyFrom miniSem (fun _ => ⟨100, 7⟩) 0 [] (logOf miniSem [⟨.loadText, ⟨100, 7⟩, [.put 1 .random]⟩]) =
-      applyFrom miniSem (fun _ => ⟨160, 9⟩) 0 [] (logOf miniSem [⟨.loadText, ⟨100, 7⟩, [.put 1 .random]⟩]) := by
+/-- the four apply paths over a log, each entry applied in the environment of whoever applies it:
+live; restart replay; install of a snapshot taken (by `snapshotter`) at index `k`, then the suffix;
+recovery = RecoverNode folds the log from a snapshot at `j` (in `recoverer`'s environments) into
+one snapshot at the end, which the restarted node restores (nothing left to replay) -/
+structure Paths (M : Sem D S) (d0 : D) (log : List S) where
+  eLive : Nat → Env
+  eReplay : Nat → Env
+  eSnap : Nat → Env
+  eInst : Nat → Env
+  eRecSnap : Nat → Env
+  eRec : Nat → Env
+  k : Nat
+  j : Nat
+
+def Paths.liveDb {M : Sem D S} {d0 : D} {log : List S} (p : Paths M d0 log) : D := applyFrom M p.eLive 0 d0 log
+def Paths.replayDb {M : Sem D S} {d0 : D} {log : List S} (p : Paths M d0 log) : D := applyFrom M p.eReplay 0 d0 log
+def Paths.installDb {M : Sem D S} {d0 : D} {log : List S} (p : Paths M d0 log) : D :=
+  applyFrom M p.eInst p.k (applyFrom M p.eSnap 0 d0 (log.take p.k)) (log.drop p.k)
+def Paths.recoverDb {M : Sem D S} {d0 : D} {log : List S} (p : Paths M d0 log) : D :=
+  applyFrom M p.eRec p.j (applyFrom M p.eRecSnap 0 d0 (log.take p.j)) (log.drop p.j)
+
+theorem split_indep (M : Sem D S) (log : List S) (hi : ∀ s ∈ log, Indep M s) (d0 : D) (k : Nat)
+    (a b c : Nat → Env) :
+    applyFrom M b k (applyFrom M a 0 d0 (log.take k)) (log.drop k) = applyFrom M c 0 d0 log := by
+  have hit : ∀ s ∈ log.take k, Indep M s := fun s hs => hi s (List.mem_of_mem_take hs)
+  have hid : ∀ s ∈ log.drop k, Indep M s := fun s hs => hi s (List.mem_of_mem_drop hs)
+  conv => rhs; rw [(List.take_append_drop k log).symm, applyFrom_append]
+  rw [applyFrom_indep M (log.take k) hit a c 0 0 d0]
+  exact applyFrom_indep M (log.drop k) hid _ _ _ _ _
+
+/-- **converge.** For every semantics, every sequence of requests with covered statements
+through any write endpoints, every initial database and every choice of environments and
+snapshot indices: all four apply paths end in the same database. -/
+theorem converge (M : Sem D S) (rs : List (Req S)) (hc : CoveredReqs M rs) (d0 : D)
+    (p : Paths M d0 (logOf M rs)) :
+    p.replayDb = p.liveDb ∧ p.installDb = p.liveDb ∧ p.recoverDb = p.liveDb := by
+  have hi := log_indep M rs hc
+  exact ⟨applyFrom_indep M _ hi _ _ 0 0 d0, split_indep M _ hi d0 p.k _ _ _, split_indep M _ hi d0 p.j _ _ _⟩
+
+/-- the property, over an ARBITRARY semantics and all four paths -/
+def C01_full : Prop :=
+  ∀ (D S : Type) (M : Sem D S) (rs : List (Req S)), CoveredReqs M rs →
+    ∀ (d0 : D) (p : Paths M d0 (logOf M rs)),
+      p.replayDb = p.liveDb ∧ p.installDb = p.liveDb ∧ p.recoverDb = p.liveDb
+
+theorem C01_full_holds : C01_full := fun _ _ M rs hc d0 p => converge M rs hc d0 p
+
+/-! ### the real rewriter: the law is derived, not assumed -/
+
+/-- a statement as the leader sees it: parsed by rqlite/sql into a tree (C14's `Node`), or a text
+the parser rejects — `Process` passes those through unchanged -/
+inductive SqlStmt where
+  | parsed (n : RqModel.Rewrite.Node)
+  | raw (text : String)
+
+/-- SQLite over statement trees: a compositional value semantics with clock and random source
+(`ESem`, extending C14's `Sem`), the effect of a statement whose tree has value `v`, and whatever
+SQLite does with a text the rqlite parser could not parse (it may read the environment) -/
+structure SqlWorld (D V : Type) where
+  sem    : ESem V
+  run    : D → V → D
+  rawRun : Env → D → String → D
+
+/-- the rewriter configuration a leader in environment `le` runs with: both rewrites on, its own
+random source, its clock reading printed into the pinned literal -/
+def cfgOf (le : Env) : RqModel.Rewrite.Cfg := ⟨true, true, fun k => Int.ofNat (le.rnd + k), toString le.now⟩
+
+/-- **the C01 semantics built from the C14 model.** `rewritten_indep` is a theorem here:
+`C14.no_nondet_left` (no clock read is left), `rewrite_noRand` (no random call is left in a
+covered statement) and `evalE_indep` (such a tree has one value in all environments). -/
+def sqlSem {V : Type} (W : SqlWorld D V) : Sem D SqlStmt where
+  exec e d s := match s with
+    | .parsed n => W.run d (evalE W.sem e n)
+    | .raw t => W.rawRun e d t
+  rewrite le s := match s with
+    | .parsed n => .parsed (RqModel.Rewrite.rewrite (cfgOf le) n).1
+    | .raw t => .raw t
+  Covered s := match s with
+    | .parsed n => covered n = true
+    | .raw _ => False
+  rewritten_indep := by
+    intro le s hc e1 e2 d
+    cases s with
+    | raw t => exact absurd hc (by simp)
+    | parsed n =>
+      have hclean := C14.no_nondet_left (cfgOf le) rfl rfl n
+      have hnr := rewrite_noRand (cfgOf le) rfl n hc
+      show W.run d (evalE W.sem e1 _) = W.run d (evalE W.sem e2 _)
+      rw [evalE_indep W.sem _ hclean hnr e1 e2]
+
+/-- so the real rewriter's statements converge on all four paths -/
+theorem converge_sql {V : Type} (W : SqlWorld D V) (rs : List (Req SqlStmt)) (hc : CoveredReqs (sqlSem W) rs)
+    (d0 : D) (p : Paths (sqlSem W) d0 (logOf (sqlSem W) rs)) :
+    p.replayDb = p.liveDb ∧ p.installDb = p.liveDb ∧ p.recoverDb = p.liveDb :=
+  converge (sqlSem W) rs hc d0 p
+
+/-- what every path computes for a time-only statement is the value at the LEADER's clock
+(C14.meaning_preserved; random rewriting off, the form the law is stated in there) -/
+theorem logged_value_is_leaders {V : Type} (S : ESem V) (le : Env) (n : RqModel.Rewrite.Node)
+    (hr : noRand n = true)
+    (hlaw : ∀ r, (semAt S r).lit "jd" (toString le.now) = (semAt S r).now le.now) (e : Env) :
+    let c : RqModel.Rewrite.Cfg := ⟨false, true, fun _ => 0, toString le.now⟩
+    evalE S e (RqModel.Rewrite.rewrite c n).1 = evalE S ⟨le.now, e.rnd⟩ n := by
+  intro c
+  unfold evalE
+  exact (C14.meaning_preserved (semAt S e.rnd) c le.now rfl rfl (hlaw e.rnd) n).1 e.now
+
+/-! ### non-vacuity and the boundary of the claim -/
+
+/-- a world over integers: a tree's value is the sum of its parts, `now`/random read the environment,
+the statement stores its value under key 1 -/
+def demoWorld : SqlWorld Db Int where
+  sem :=
+    { lit := fun k _ => if k == "randnum" then 3 else if k == "jd" then 5 else 1,
+      ident := fun _ => 0, app := fun _ a x => a.sum + x.sum, ord := List.sum, ret := List.sum,
+      node := fun _ k => k.sum, now := fun t => Int.ofNat t, rnd := fun r _ _ _ => Int.ofNat r }
+  run := fun d v => dbPut d 1 v
+  rawRun := fun e d _ => dbPut d 1 (Int.ofNat e.rnd)
+
+open RqModel.Rewrite in
+/-- INSERT … VALUES(random(), datetime('now')) : covered; live and replay agree although the
+environments differ -/
+def demoStmt : SqlStmt :=
+  .parsed (.other "InsertStatement" (.cons (.call "random" .nil .nil)
+    (.cons (.call "datetime" (.cons (.lit "string" "now") .nil) .nil) .nil)))
+
+example : (sqlSem demoWorld).Covered demoStmt := by show covered _ = true; decide
+
+example :
+    let M := sqlSem demoWorld
+    let log := logOf M [⟨.execute, ⟨100, 7⟩, [demoStmt]⟩]
+    applyFrom M (fun _ => ⟨100, 7⟩) 0 [] log = [(1, 8)] ∧ applyFrom M (fun _ => ⟨555, 9⟩) 0 [] log = [(1, 8)] ∧
+    -- unrewritten, the same statement differs between the two environments
+    M.exec ⟨100, 7⟩ [] demoStmt = [(1, 107)] ∧ M.exec ⟨555, 9⟩ [] demoStmt = [(1, 564)] := by
   decide
 
-/-! ### the store's apply paths are these folds -/
+open RqModel.Rewrite in
+/-- **uncovered_statement_witness**: RANDOM() inside ORDER BY (excluded by the property) is not
+rewritten and a text the parser rejects is passed through: both can diverge between a node
+applying live and one replaying later — `Covered` is exactly where the claim stops. -/
+theorem uncovered_statement_witness :
+    let M := sqlSem demoWorld
+    let ob : SqlStmt := .parsed (.other "SelectStatement" (.cons (.ord (.cons (.call "random" .nil .nil) .nil)) .nil))
+    ¬ M.Covered ob ∧ ¬ M.Covered (.raw "INSERT INTO t VALUES(random());;") ∧
+    applyFrom M (fun _ => ⟨100, 7⟩) 0 [] (logOf M [⟨.execute, ⟨100, 7⟩, [ob]⟩]) ≠
+      applyFrom M (fun _ => ⟨555, 9⟩) 0 [] (logOf M [⟨.execute, ⟨100, 7⟩, [ob]⟩]) ∧
+    applyFrom M (fun _ => ⟨100, 7⟩) 0 [] (logOf M [⟨.loadText, ⟨100, 7⟩, [.raw "x"]⟩]) ≠
+      applyFrom M (fun _ => ⟨555, 9⟩) 0 [] (logOf M [⟨.loadText, ⟨100, 7⟩, [.raw "x"]⟩]) := by
+  refine ⟨?_, ?_, ?_, ?_⟩
+  · show ¬ (covered _ = true); decide
+  · exact fun h => h
+  · decide
+  · decide
 
-/-- For every history, the four ways a node can arrive at its database — applying live,
-restarting after a crash at any point (either Open path), being recovered from a peers
-file after going down in any way, and installing a snapshot taken at any index followed by
-the log suffix — all equal folding `CommandProcessor.Process` over the command log. -/
-theorem paths_are_folds (hist : List C22.Op) (pt : C03.Pt) (dn : C33.Down) (peers : Config) (k : Nat) (cs : List Cmd) :
-    let n := C22.run {} hist
-    n.live = hist.foldl C22.effect [] ∧
-    (openNode (crash (C03.stateAt n C03.Pt.rest))).live = n.live ∧
-    (openNode (crash (C03.stateAt n pt))).live = C03.expected n.live pt ∧
-    (openNode { C33.goDown n dn with peersFile := some peers }).live = n.live ∧
-    replay (replay [] (cs.take k)) (cs.drop k) = replay [] cs := by
+/-- the toy instance of the first round still satisfies the (now conditional) law -/
+example : ∀ s, miniSem.Covered s := fun _ => trivial
+
+/-! ### layer 2: the store's apply paths, with the environment threaded through -/
+
+/-- For every command semantics `A` (SQLite under the FSM, reading the applying node's clock and
+random source), every sequence of commands whose application is environment independent
+(`Denotes`: what layer 1 establishes for logged statements), every crash point and every way of
+going down, and EVERY choice of environments for the live applies, the restart replay, the
+recovery replay and the install: the node that applied live, the node restarted from any crash
+point, the node recovered from a peers file and a node that installed a snapshot taken at any
+index and applied the suffix hold the same database. -/
+theorem store_paths_converge (A : CmdSem) (cs : List Cmd) (hd : Denotes A cs)
+    (liveEnv replayEnv recEnv recReplayEnv snapEnv instEnv : Nat → Env) (dn : C33.Down) (peers : Config) (k : Nat) :
+    let n := runWritesE A liveEnv 0 {} cs
+    n.live = replay [] cs ∧
+    (openNodeE A replayEnv recEnv (crash n)).live = n.live ∧
+    (openNodeE A replayEnv recReplayEnv { C33.goDown n dn with peersFile := some peers }).live = n.live ∧
+    replayE A instEnv k (replayE A snapEnv 0 [] (cs.take k)) (cs.drop k) = n.live := by
   intro n
-  refine ⟨C22.live_run C22.good_init hist, (C03.restart_exact hist .rest).1, (C03.restart_exact hist pt).1,
-    (C33.recover_keeps_applied hist dn peers).1, ?_⟩
-  rw [← replay_append, List.take_append_drop]
+  have hn : n = C22.run {} (cs.map C22.Op.write) := by
+    show runWritesE A liveEnv 0 {} cs = _
+    rw [runWritesE_eq A liveEnv cs 0 {} hd]
+    unfold C22.run
+    rw [List.foldl_map]; rfl
+  have hh : n.hist = cs := by
+    show (runWritesE A liveEnv 0 {} cs).hist = cs
+    rw [runWritesE_eq A liveEnv cs 0 {} hd, hist_foldl_write]; rfl
+  have hlive : n.live = replay [] cs := by
+    rw [hn, C22.live_run C22.good_init, List.foldl_map]; rfl
+  refine ⟨hlive, ?_, ?_, ?_⟩
+  · rw [openNodeE_eq A _ _ (crash n) (by show Denotes A n.hist; rw [hh]; exact hd)]
+    have := (C03.restart_exact (cs.map C22.Op.write) .rest).1
+    rw [← hn] at this; exact this
+  · have hg := C33.goDown_spec (n := n) (by rw [hn]; exact C22.good_run C22.good_init _) dn
+    rw [openNodeE_eq A _ _ _ (by show Denotes A (C33.goDown n dn).hist; rw [hg.2.2.1, hh]; exact hd)]
+    have := (C33.recover_keeps_applied (cs.map C22.Op.write) dn peers).1
+    rw [← hn] at this; exact this
+  · rw [replayE_eq A snapEnv _ 0 [] (fun c hc => hd c (List.mem_of_mem_take hc)),
+      replayE_eq A instEnv _ k _ (hd.drop k), ← replay_append, List.take_append_drop, hlive]
+
+/-- a command semantics that reads the environment for one command form (a NOOP that stamps the
+applying node's random source into key 999) -/
+def demoA : CmdSem where
+  applyE e d c := match c with
+    | .noop => dbPut d 999 (Int.ofNat e.rnd)
+    | c => applyCmd d c
+
+/-- the hypothesis of `store_paths_converge` is satisfiable by a semantics that DOES read the
+environment (for commands that are not in the log) … -/
+example : Denotes demoA [.exec false [.put 1 5], .load [(2, 2)], .exec true [.add 2 1]] := by
+  intro c hc e d
+  simp only [List.mem_cons, List.mem_nil_iff, or_false] at hc
+  rcases hc with rfl | rfl | rfl <;> rfl
+
+/-- … and **the store layer can diverge** when it fails: with an environment-dependent command in
+the log, the node that applied it live and the same node after a restart hold different databases -/
+theorem store_layer_can_diverge_witness :
+    let n := runWritesE demoA (fun _ => ⟨100, 7⟩) 0 {} [.exec false [.put 1 5], .noop]
+    n.live = [(1, 5), (999, 7)] ∧
+    (openNodeE demoA (fun _ => ⟨500, 9⟩) (fun _ => ⟨500, 9⟩) (crash n)).live = [(1, 5), (999, 9)] := by
+  decide
 
 /-! ### regenerated facts -/
 
-/-- every write endpoint, the SQL-text load included, calls the rewriter before handing the
-statements on; `rewrites` is exactly this table -/
+/-- the handlers' call lists ARE the model's `endpointCalls` (from which `rewrites` is computed) -/
 theorem code_write_endpoints :
     RqModel.Gen.StoreOrder.execEndpoint = ["s.queuedExecute", "s.execute"] ∧
-    RqModel.Gen.StoreOrder.executeEndpoint = ["sql.Process", "s.proxy.Execute"] ∧
-    RqModel.Gen.StoreOrder.queuedExecEndpoint = ["sql.Process", "s.stmtQueue.Write"] ∧
-    RqModel.Gen.StoreOrder.requestEndpoint = ["sql.Process", "s.proxy.Request"] ∧
-    RqModel.Gen.StoreOrder.httpLoadSteps = ["db.IsValidSQLiteData", "s.proxy.Load", "sql.Process", "s.proxy.Execute"] :=
-  ⟨rfl, rfl, rfl, rfl, rfl⟩
+    RqModel.Gen.StoreOrder.executeEndpoint = endpointCalls .execute ∧
+    RqModel.Gen.StoreOrder.queuedExecEndpoint = endpointCalls .queued ∧
+    RqModel.Gen.StoreOrder.requestEndpoint = endpointCalls .request ∧
+    RqModel.Gen.StoreOrder.httpLoadSteps = endpointCalls .loadText ∧
+    RqModel.Gen.StoreOrder.queryEndpoint = endpointCalls .queryStrong :=
+  ⟨rfl, by decide, by decide, by decide, by decide, by decide⟩
 
 /-- both code paths that apply log entries to a database go through `CommandProcessor.Process` -/
 theorem code_single_apply_function :
